@@ -96,3 +96,22 @@ def d69_groupby_cov_missing_values(case, rec):
         return bool(x[list(last["args"]["cols"])].isna().any().any())
     except Exception:
         return False
+
+
+def d70_groupby_shift_repeating_index_disk(case, rec):
+    """C02: groupby shift as the final operation under the disk shuffle on a frame whose index labels repeat
+    (the row order inside a group is restored by sorting on the index, which cannot separate equal labels)."""
+    if rec.get("kind") != "differs-from-pandas":
+        return False
+    prog, last = _last_step(case)
+    if last is None or (prog.get("config") or {}).get("shuffle") != "disk":
+        return False
+    if last["op"] != "groupby_window" or last["args"].get("how") != "shift":
+        return False
+    try:
+        from . import interp
+
+        x = interp.run_pandas(prog)[last["in"][0]]
+        return not x.index.is_unique
+    except Exception:
+        return False
